@@ -19,12 +19,12 @@ warnings.filterwarnings("ignore")
 CELL = 4.0
 
 
-def mk_atoms(zs, H, numbers=None):
+def mk_atoms(zs, H, numbers=None, pbc=True):
     from ase import Atoms
 
     n = len(zs)
     pos = [[(i + 1) * 2.0 ** -6, 0.5, z] for i, z in enumerate(zs)]  # x encodes the atom index
-    return Atoms(numbers=numbers or [6] * n, positions=pos, cell=[CELL, CELL, H], pbc=True)
+    return Atoms(numbers=numbers or [6] * n, positions=pos, cell=[CELL, CELL, H], pbc=pbc)
 
 
 def idx_of(atoms):
@@ -139,7 +139,7 @@ class C09(Property):
                 got = "ok " + listlist_s([sorted(int(i) for i in ix) for ix in sia._slice_index])
             except Exception as e:  # noqa
                 got = "err " + err_kind(e)
-            add("SliceIndexedAtoms._slice_index", case, f"index {list_s(ts, rat_s)} {list_s(zs, rat_s)}", got)
+            add("SliceIndexedAtoms._slice_index", case, f"index {list_s(ts, rat_s)} {rat_s(H)} {list_s(zs, rat_s)}", got)
             if all(t > 0 for t in ts):
                 pad = rng.choice([0.0, 0.0, 0.25, 1.0])
                 i = rng.randint(0, len(ts) + (1 if rng.random() < 0.1 else 0) - 1) if len(ts) else 0
@@ -163,7 +163,8 @@ class C09(Property):
                 else:
                     zs.append(rng.choice([0.0, H, -H]))
             case = {"H": H, "zs": zs}
-            pot = abtem.Potential(mk_atoms(zs, H), gpts=8, slice_thickness=1.0)
+            case["pbc"] = rng.choice([True, True, False, [True, True, False]])
+            pot = abtem.Potential(mk_atoms(zs, H, pbc=case["pbc"]), gpts=8, slice_thickness=1.0)
             out = pot.get_sliced_atoms().atoms
             order = np.argsort(out.positions[:, 0])
             got = "ok " + list_s(out.positions[order, 2], rat_s) if len(out) == len(zs) else f"?natoms={len(out)}"
@@ -191,8 +192,9 @@ class C09(Property):
 
         H, zs, st = case["H"], case["zs"], case["st"]
         try:
-            pot = abtem.Potential(mk_atoms(zs, H), gpts=8, slice_thickness=tuple(st) if isinstance(st, list) else st,
-                                  projection=case.get("projection", "infinite"))
+            pot = abtem.Potential(mk_atoms(zs, H, pbc=case.get("pbc", True)), gpts=8,
+                                  slice_thickness=tuple(st) if isinstance(st, list) else st,
+                                  projection=case.get("projection", "infinite"), periodic=case.get("periodic", True))
             ts = pot.slice_thickness
             sa0 = pot.get_sliced_atoms()
         except Exception as e:  # noqa
@@ -227,6 +229,9 @@ class C09(Property):
         members = [idx_of(sa.get_atoms_in_slices(i)) for i in range(len(ts))]
         count = {k: sum(m.count(k) for m in members) for k in range(len(zs))}
         ctx.evaluations += 1
+        if not case.get("periodic", True):
+            # a non-periodic potential cuts atoms outside the box away: those may be in no slice, atoms inside in exactly one
+            count = {k: (1 if (c == 0 and not (0 <= zs[k] < H)) else c) for k, c in count.items()}
         if any(c != 1 for c in count.values()):
             missing = [k for k, c in count.items() if c == 0]
             short = isinstance(st, list) and float(sum(ts)) < H and all(c in (0, 1) for c in count.values()) and \
@@ -237,11 +242,11 @@ class C09(Property):
                           {"slices_per_atom": count, "z": {k: zs[k] for k, c in count.items() if c != 1}})
             return
         cum = np.cumsum(ts)
-        for k, z in enumerate(zs):
-            zz = z % H if 0 <= z % H < H - 1e-10 else 0.0
+        prepared = {int(round(a.position[0] / 2.0 ** -6)) - 1: float(a.position[2]) for a in sa.atoms}
+        for k, zz in prepared.items():  # heights as the slicer sees them (after the code's own wrap / snap)
             for j, c in enumerate(cum[:-1]):
                 if zz == c and k not in members[j + 1]:
-                    ctx.violation("boundary-atom-not-in-upper-slice", case, {"atom": k, "z": z, "boundary": float(c),
+                    ctx.violation("boundary-atom-not-in-upper-slice", case, {"atom": k, "z": zs[k], "prepared_z": zz, "boundary": float(c),
                                                                              "found_in": [i for i, m in enumerate(members) if k in m]})
                     return
 
@@ -252,11 +257,40 @@ class C09(Property):
         rs = np.random.default_rng(case["aseed"])
         H = case["H"]
 
-        def rand_atoms(n):
-            return Atoms(numbers=rs.choice(case["elements"], n), cell=[CELL, CELL, H], pbc=True,
-                         positions=np.column_stack([rs.uniform(0, CELL, n), rs.uniform(0, CELL, n), rs.uniform(0, H, n)]))
+        stv = case["st"] if not isinstance(case["st"], list) else 1.0
+        edges = [k * (H / np.ceil(H / stv)) for k in range(int(np.ceil(H / stv)))]
 
-        A, B = rand_atoms(case["na"]), rand_atoms(case["nb"])
+        def rand_atoms(n, elements):
+            z = rs.uniform(0, H, n)
+            if case.get("boundary_atoms"):  # some atoms exactly on slice boundaries / on top of each other
+                z = np.where(rs.random(n) < 0.5, rs.choice(edges, n), z)
+            xy = rs.uniform(0, CELL, (n, 2))
+            if case.get("boundary_atoms") and n > 1:
+                xy[1] = xy[0]
+            return Atoms(numbers=rs.choice(elements, n), cell=[CELL, CELL, H], pbc=True, positions=np.column_stack([xy, z]))
+
+        els = case["elements"]
+        if case.get("disjoint_species") and len(els) > 1:
+            A, B = rand_atoms(case["na"], els[:1]), rand_atoms(case["nb"], els[1:])
+        else:
+            A, B = rand_atoms(case["na"], els), rand_atoms(case["nb"], els)
+        if case.get("partial_sigmas"):
+            # thermal sigmas listed for ONE species only: the other species must contribute exactly as without sigmas
+            from abtem.parametrizations import LobatoParametrization
+            from ase.data import chemical_symbols
+
+            listed = chemical_symbols[els[0]]
+            others = (A + B)[[i for i, a in enumerate(A + B) if a.number != els[0]]]
+            if len(others):
+                kw0 = dict(gpts=case["gpts"], slice_thickness=case["st"], projection=case["projection"])
+                with_s = np.asarray(abtem.Potential(others, parametrization=LobatoParametrization(sigmas={listed: 0.12}), **kw0).build(lazy=False).array)
+                plain = np.asarray(abtem.Potential(others, **kw0).build(lazy=False).array)
+                ctx.evaluations += 1
+                if not np.allclose(with_s, plain, rtol=1e-4, atol=2e-5 * max(1.0, float(np.abs(plain).max()))):
+                    ctx.violation(f"species-without-sigma-entry-lost-{case['projection']}", case,
+                                  {"maxdiff": float(np.abs(with_s - plain).max()), "scale": float(np.abs(plain).max()),
+                                   "sum_with_partial_sigmas": float(np.abs(with_s).sum())})
+                    return
         kw = dict(gpts=case["gpts"], slice_thickness=case["st"], projection=case["projection"])
         pa, pb, pab = (np.asarray(abtem.Potential(x, **kw).build(lazy=False).array) for x in (A, B, A + B))
         ctx.evaluations += 1
@@ -285,14 +319,13 @@ class C09(Property):
             zs = gen_zs(rng, ts, H)
             # adversarial floats around the wrap / snap / nudge windows
             zs += [rng.choice([H - 1e-13, -1e-15, H, 0.0, H - 5e-11, -1e-11, H + 1e-13, rng.uniform(0, H)]) for _ in range(rng.randint(0, 3))]
-            c = {"H": H, "st": st, "zs": zs, "projection": "finite" if i % 5 == 4 else "infinite"}
-            if c["projection"] == "finite":
-                # finite projection assigns an atom to every slice its cutoff sphere touches; membership by centre is checked
-                # through SlicedAtoms with zero padding in the correspondence part, here only infinite projection partitions
-                c["projection"] = "infinite"
+            c = {"H": H, "st": st, "zs": zs, "projection": "infinite", "periodic": rng.random() < 0.75,
+                 "pbc": rng.choice([True, True, False, [True, True, False]])}
+            if not c["periodic"]:  # atoms of a non-periodic potential just inside the top and bottom faces
+                c["zs"] = zs + [rng.choice([H - 5e-14, H - 1e-12, H - 2e-12, 0.0, 1e-13, H / 2])]
             self.oracle_slices(ctx, c)
             ctx.case(c)
-            ctx.count("conf-slices")
+            ctx.count(f"conf-slices:{'periodic' if c['periodic'] else 'nonperiodic'}:pbc={c['pbc'] if isinstance(c['pbc'], bool) else 'mixed'}")
         # explicit sequences whose sum is short of / beyond the cell height but inside the np.isclose tolerance of
         # _validate_slice_thickness (the short ones are the recorded finding; the long ones must still partition the atoms)
         for i in range(ctx.n(6, 60)):
@@ -305,14 +338,15 @@ class C09(Property):
             self.oracle_slices(ctx, c)
             ctx.case(c)
             ctx.count(f"conf-slices:sum-off-by-{'short' if d < 0 else 'long'}")
-        for i in range(ctx.n(8, 60)):
+        for i in range(ctx.n(24, 200)):
             H = float(rng.choice([2, 3, 4]))
             c = dict(aseed=rng.randint(0, 10 ** 6), H=H, na=rng.randint(1, 4), nb=rng.randint(1, 4), elements=rng.choice([[6], [6, 14], [14, 8, 6]]),
-                     gpts=rng.choice([8, 12, 16]), st=rng.choice([0.5, 1.0, H]), projection="finite" if i % 4 == 3 else "infinite",
-                     other_st=[rng.choice([0.4, 0.75, 2.0, H]), gen_ts(rng, H)])
+                     gpts=rng.choice([8, 12, 16, [8, 12]]), st=rng.choice([0.5, 1.0, H]), projection="finite" if i % 4 == 3 else "infinite",
+                     other_st=[rng.choice([0.4, 0.75, 2.0, H]), gen_ts(rng, H)], boundary_atoms=i % 3 == 0, disjoint_species=i % 5 == 1,
+                     partial_sigmas=i % 4 in (1, 3))
             self.oracle_additive(ctx, c)
             ctx.case(c)
-            ctx.count(f"conf-additive:{c['projection']}")
+            ctx.count(f"conf-additive:{c['projection']}:{'boundary' if c['boundary_atoms'] else 'uniform'}:{'partial-sigmas' if c['partial_sigmas'] else 'plain'}")
 
     def replay(self, ctx: Ctx, case):
         if "aseed" in case:
